@@ -173,6 +173,32 @@ fn floats(ctx: &mut Ctx, n: usize) {
             check_literal(ctx, &format!("f{mant}E{esign}000{edigits}"), &want, "float-exponent-zero-padded");
         }
     }
+    // short mantissas with every exponent: f<m>e<k> (what a person writes; the shortest / exact forms above have 16-17 digits)
+    {
+        let mut ms: Vec<u64> = (1..=120).collect();
+        for _ in 0..ctx.tier.of(200, 2_000) {
+            let digits = 1 + rng.below(17);
+            ms.push(rng.next() % 10u64.pow(digits as u32).max(2));
+        }
+        ms.extend([602_214_076, 299_792_458, 123_456_789_012_345, 999_999_999_999_999, 9_007_199_254_740_993, 1_000_000_000_000_000]);
+        for m in ms {
+            for e in (-30i32..=45).chain([100, 200, 290, 300, 307, 308, -100, -300, -320, -323]) {
+                if !ctx.mine() {
+                    continue;
+                }
+                let plain = format!("{m}e{e}");
+                let Ok(v) = plain.parse::<f64>() else { continue };
+                check_literal(ctx, &format!("f{plain}"), &Want::Val(Value::Float(v)), "float-short-mantissa-with-exponent");
+                if m % 7 == 0 {
+                    check_literal(ctx, &format!("f-{m}E+{e}").replace("+-", "-"), &Want::Val(Value::Float(-v)), "float-short-mantissa-with-exponent");
+                    let with_point = format!("{}.{}e{e}", m / 10, m % 10);
+                    if let Ok(w) = with_point.parse::<f64>() {
+                        check_literal(ctx, &format!("f{with_point}"), &Want::Val(Value::Float(w)), "float-short-mantissa-with-exponent");
+                    }
+                }
+            }
+        }
+    }
     if ctx.mine() {
         check_literal(ctx, "f1e999", &Want::Val(Value::Float(f64::INFINITY)), "float-overflow-to-infinity");
         check_literal(ctx, "f-1e999", &Want::Val(Value::Float(f64::NEG_INFINITY)), "float-overflow-to-infinity");
@@ -373,6 +399,23 @@ fn strings(ctx: &mut Ctx, astral_samples: usize) {
             }
         }
     }
+    // \u{…} values beyond 10FFFF of every length, in particular those whose low 32 (or 21, 24) bits are a valid scalar value: all rejected
+    for low in [0x41u64, 0x20ac, 0x1f600, 0x10ffff, 0x0] {
+        for high in [0x1u64, 0xf, 0xabc, 0xffff_ffff, 0x1000_0000, 0x8000_0000] {
+            for shift in [21u32, 24, 28, 32, 36, 40] {
+                if !ctx.mine() {
+                    continue;
+                }
+                let v = (high as u128) << shift | low as u128;
+                if v <= 0x10ffff {
+                    continue;
+                }
+                check_literal(ctx, &format!("\"x\\u{{{v:x}}}y\""), &Want::Reject, "string-unicode-escape-out-of-range");
+                check_literal(ctx, &format!("\"x\\u{{{v:X}}}y\""), &Want::Reject, "string-unicode-escape-out-of-range");
+                check_literal(ctx, &format!("\"x\\u{{000{v:x}}}y\""), &Want::Reject, "string-unicode-escape-out-of-range");
+            }
+        }
+    }
     // sequences of escapes next to each other and next to quotes
     if ctx.mine() {
         let cases: Vec<(&str, &str)> = vec![
@@ -473,6 +516,11 @@ fn words(ctx: &mut Ctx) {
         "now", "today", "time", "timestamp", "dt", "dur", "days", "hours", "minutes", "seconds", "weeks", "months", "years", "millis", "date_time_", "datetimes", "upper", "lower", "to_uppercase", "to_lowercase", "to_string", "to_int", "to_float", "strip", "ltrim", "rtrim", "replace", "split", "join", "concat", "substr", "matches", "regex",
         "contain", "contained", "includes", "include", "within", "inside", "exists", "defined", "empty", "is_empty", "unwrap", "option", "ok", "err", "error", "fail", "try", "catch", "throw", "assert", "input", "output", "facts", "this", "self", "it", "_", "__", "_0", "_a", "a0", "x_y_z"] {
         ws.push(w.to_string());
+    }
+    // long identifiers: a name is an identifier whatever its length
+    for n in [64usize, 127, 128, 254, 255, 256, 257, 511, 512, 1_000, 4_096, 65_536, 70_000] {
+        ws.push("abcdefghij".repeat(n / 10 + 1)[..n].to_string());
+        ws.push(format!("i{}", "x_1".repeat(n / 3 + 1))[..n].to_string());
     }
     for a in b'a'..=b'z' {
         ws.push((a as char).to_string());
